@@ -310,5 +310,7 @@ func checkC12(c *Ctx) *report.Result {
 		}
 		r.Ob("W-regs", ok && len(foreign) == 0, reg.name+" reads back the written byte; the write stores only its register and write marker", "", fmt.Sprintf("reads %s; other cells stored %v", ai.ValueString(rd.Result), foreign))
 	}
+	r.Rule("W-cpu", "DIV is cleared only by the program's own DIV writes: every CPU row performs exactly its documented memory writes (S-cpu of C23 re-stated)")
+	adopt(r, c.sibling("C23"), map[string]string{"S-cpu": "W-cpu"}, "an instruction that writes FF04 on its own account clears the divider although the program made no DIV write")
 	return r
 }
